@@ -60,7 +60,7 @@ func NewNet(r *rand.Rand, me string, nUsers, nChans int) *Net {
 		name := []string{"#a", "#b", "&c", "#d"}[i%4]
 		ch := &NChan{Name: name, Members: map[string]*state.ChanPrivs{}}
 		if r.Intn(2) == 0 {
-			ch.Topic = "initial topic of " + name
+			ch.Topic = "initial topic of " + name + []string{"", "", " ", "\t ", " :"}[r.Intn(5)]
 		}
 		ch.Modes.NoExternalMsg, ch.Modes.ProtectedTopic = r.Intn(2) == 0, r.Intn(2) == 0
 		if r.Intn(3) == 0 {
@@ -477,8 +477,19 @@ func (n *Net) Step() []string {
 			return nil
 		}
 		ch.Topic = fmt.Sprintf("topic %d of %s", n.r.Intn(1000), c)
-		if n.r.Intn(6) == 0 {
+		switch n.r.Intn(12) {
+		case 0, 1:
 			ch.Topic = ""
+		case 2:
+			ch.Topic += "  " // topics are free text: surrounding blanks, tabs and colons belong to them
+		case 3:
+			ch.Topic += "\t"
+		case 4:
+			ch.Topic = " " + ch.Topic
+		case 5:
+			ch.Topic = ":" + ch.Topic + " :"
+		case 6:
+			ch.Topic = " "
 		}
 		if !meOn {
 			return nil
